@@ -132,6 +132,10 @@ def run(ctx, replay=None):
     wit['parverify_prefix'] = r.violation
     if r.violation != 'FailedHasError':
         ctx.inconclusive.append('spec sensitivity: ParVerify with the original store order did not violate FailedHasError')
+    r = tlc.run(PSPEC, 'MC_ParVerify.tla', 'MC_ParVerify_prefix_ori.cfg', workers=W, timeout=300)
+    wit['parverify_prefix_ori'] = r.violation
+    if r.violation != 'BytesReported':
+        ctx.inconclusive.append('spec sensitivity: ParVerify with oribys stored after status Init did not violate BytesReported')
     ctx.cov['spec_sensitivity'] = wit
 
     # 5. simulated behaviours of the large alphabet
